@@ -395,6 +395,66 @@ func (r *rig) deliver(d vk.Dir, li int, mode int, permille int) {
 	r.noteDelivery(li, d, before, before+int64(moved))
 }
 
+// headPending returns the first record of link li / direction d that has not been delivered completely.
+func (r *rig) headPending(li int, d vk.Dir) (rigRecord, bool) {
+	for _, rec := range r.records(li, d) {
+		if rec.end > r.delivered[d][li] {
+			return rec, true
+		}
+	}
+	return rigRecord{}, false
+}
+
+// raceClose arranges the arrival order C03 is about and then lets two connections race: of everything side `side`
+// has sent on stream idx, the lowest-numbered data frame still in flight (on connection la) and the closing notice
+// (on connection lb != la) are held back while all other records are delivered one at a time - the frames in between
+// get parked in the receiver's reorder buffer. Then connection la (gap filler first) and the closing notice are
+// delivered in the same step, so that one connection's goroutine is flushing the backlog while another's processes
+// the close. Falls back to delivering nothing when the wire does not have that shape.
+func (r *rig) raceClose(side, idx int) {
+	s := r.stream(side, idx)
+	if s == nil || len(r.links) < 2 {
+		return
+	}
+	d := dirOf(side)
+	la, lb := -1, -1
+	var first, closing rigRecord
+	for li := range r.links {
+		for _, rec := range r.records(li, d) {
+			if rec.end <= r.delivered[d][li] || !rec.ok || rec.sid != s.id {
+				continue
+			}
+			if rec.closing == closingStream {
+				lb, closing = li, rec
+			} else if rec.closing == closingNothing && (la < 0 || rec.seq < first.seq) {
+				la, first = li, rec
+			}
+		}
+	}
+	if la < 0 || lb < 0 || la == lb {
+		return
+	}
+	for li := range r.links {
+		for guard := 0; guard < 10000; guard++ {
+			h, ok := r.headPending(li, d)
+			if !ok || (li == la && h.end == first.end) || (li == lb && h.end == closing.end) {
+				break
+			}
+			r.deliver(d, li, 0, 0)
+			synctest.Wait()
+		}
+	}
+	if h, ok := r.headPending(la, d); !ok || h.end != first.end {
+		return
+	}
+	if h, ok := r.headPending(lb, d); !ok || h.end != closing.end {
+		return
+	}
+	r.deliver(d, la, 2, 0)
+	r.deliver(d, lb, 0, 0)
+	r.label("closing-notice-raced-with-backlog-flush")
+}
+
 func (r *rig) deliverEverything() bool {
 	any := false
 	for li, l := range r.links {
@@ -854,6 +914,8 @@ func (r *rig) start(op rigOp) error {
 		}
 	case "deliver":
 		r.deliver(dirOf(op.Side), op.C, op.Mode, op.N)
+	case "raceclose":
+		r.raceClose(op.Side, op.S)
 	case "reset":
 		r.faulted = true
 		r.links[op.C%len(r.links)].Reset()
